@@ -117,7 +117,16 @@ def apply(raw, known=None):
     pmap = {}
     for old in missing:
         ref = known["fns"][old]
-        cands = [p for p in new if cur["fns"][p]["sig"] == ref["sig"] and cur["fns"][p]["parent"] == ref["parent"] and p.rsplit("::", 1)[0] == old.rsplit("::", 1)[0]]
+        same_mod = [p for p in new if cur["fns"][p]["parent"] == ref["parent"] and p.rsplit("::", 1)[0] == old.rsplit("::", 1)[0]]
+        cands = [p for p in same_mod if cur["fns"][p]["sig"] == ref["sig"]]
+        if not cands:
+            # renamed *and* an equivalent parameter type change (&Arc<T> -> &T ...): same arity and return type, and the
+            # only missing/new pair of that shape in the module
+            loose = [p for p in same_mod if len(cur["fns"][p]["sig"]) == len(ref["sig"]) and cur["fns"][p]["sig"][0] == ref["sig"][0]]
+            others_missing = [m for m in missing if m != old and m.rsplit("::", 1)[0] == old.rsplit("::", 1)[0]
+                              and len(known["fns"][m]["sig"]) == len(ref["sig"]) and known["fns"][m]["sig"][0] == ref["sig"][0]]
+            if len(loose) == 1 and not others_missing:
+                cands = loose
         if len(cands) == 1 and cands[0] not in pmap:
             pmap[cands[0]] = old
     if pmap:
